@@ -217,6 +217,40 @@ def short_hist(lines, start):
     return res
 
 
+def full_hist(lines, start):
+    e = json.loads(lines[start - 1])
+    return [json.loads(x) for x in lines[start - 1:start + e["len"]]]
+
+
+def replay(prop, rec):
+    """A concurrent history cannot be forced again without hooks: the RECORDED history (real-code observation) is
+    judged again by TLC - strictly, and with the named Layer B deviation switched on - and the check is then re-run
+    with the recorded seed so that the targeted schedules and the stress runs are repeated on the current tree."""
+    ro = rec.get("replay") or {}
+    evs = ro.get("history_events") or ([ro["event"]] if ro.get("event") else None)
+    u = storeu.load()
+    gen = {"StoreU.tla": storeu.storeu_tla(u, len(u["triples"]), NAMES)}
+    if evs:
+        d = vlib.scratch("concreplay-")
+        path = os.path.join(d, "replay.ndjson")
+        if evs[0]["ev"] != "Reset":
+            h = json.loads(json.dumps(BLANK))
+            h.update({"ev": "Reset", "run": evs[0]["run"], "len": len(evs), "gs": ["?g1"]})
+            evs = [h] + evs
+        with open(path, "w") as fh:
+            for e in evs:
+                fh.write(json.dumps(e, separators=(",", ":")) + "\n")
+        rej, bad, _, _, _ = lin_check(gen, path, workers=1)
+        rej2, _, _, _, _ = lin_check(gen, path, "ConcTraceDev.cfg", workers=1) if rej else ([], None, 0, 0, 0)
+        print("recorded history: %s under Layer A%s; events Layer A never accepts: %s" % (
+            "NO linearisation" if rej else "linearisable",
+            (" (%s with the shared-options deviation)" % ("still none" if rej2 else "explained")) if rej else "",
+            sorted({c for c, _ in bad.values()})))
+    os.environ["VERIF_SEED"] = str(rec.get("seed", 1))
+    os.environ["VERIF_TIER"] = rec.get("tier", "quick")
+    return check(prop)
+
+
 def negative_control(gen, path, rejected_lines, d):
     """Corrupt the logged answer of one operation of an ACCEPTED history: the search must now reject it."""
     hist = histories(path)
@@ -298,7 +332,7 @@ def check(prop):
             cls = "shared-lookupoptions-spurious-answer" if s in explained else "unexplained"
             h = short_hist(lines, s)
             v.reject(cls, {"part": name, "run": h[0]["run"], "first_unexplained_event": h[min(hw - 1, len(h) - 1)] if hw >= 1 else h[0],
-                           "events": len(h) - 1}, {"history": h, "trace_reset_line": s})
+                           "events": len(h) - 1}, {"history": h, "trace_reset_line": s, "history_events": full_hist(lines, s)})
         for ln, (cls, ev) in sorted(bad.items()):
             nrej += 1
             w = {k: ev[k] for k in ("ev", "run", "p", "f1", "f2", "pk1", "pk2", "s1", "s2", "shared", "info")}
